@@ -470,7 +470,14 @@ type LemmaSpec struct {
 	Vars []bvar
 }
 
+type GlobalSpec struct {
+	Pkg  string
+	Expr *Node
+	Src  string
+}
+
 type SpecDB struct {
+	globals      []*GlobalSpec
 	funcs        map[string]*FuncSpec // key: pkgpath + "::" + name
 	preds        map[string]*PredSpec // key: name (global, with pkg fallback)
 	lemmas       []*LemmaSpec
@@ -544,7 +551,7 @@ func (db *SpecDB) loadContractFile(path, pkgPath string) error {
 	var items []string
 	isHead := func(t string) bool {
 		return clauseHead.MatchString(t) || strings.HasPrefix(t, "func ") || strings.HasPrefix(t, "pred ") || loopHead.MatchString(t) ||
-			strings.HasPrefix(t, "lemma") || t == "pure" || t == "inline" || t == "assumed" || t == "nopanic" || t == "maypanic" || strings.HasPrefix(t, "props ") || strings.HasPrefix(t, "smt ")
+			strings.HasPrefix(t, "lemma") || t == "pure" || t == "inline" || t == "assumed" || t == "nopanic" || t == "maypanic" || strings.HasPrefix(t, "props ") || strings.HasPrefix(t, "smt ") || strings.HasPrefix(t, "global ")
 	}
 	for _, l := range lines {
 		t := strings.TrimSpace(l)
@@ -565,6 +572,13 @@ func (db *SpecDB) loadContractFile(path, pkgPath string) error {
 	ord := map[string]int{}
 	for _, it := range items {
 		switch {
+		case strings.HasPrefix(it, "global "):
+			n, err := parseSpecExpr(strings.TrimSpace(it[7:]))
+			if err != nil {
+				return fmt.Errorf("%s: global: %v", path, err)
+			}
+			db.globals = append(db.globals, &GlobalSpec{Pkg: pkgPath, Expr: n, Src: it[7:]})
+			cur = nil
 		case strings.HasPrefix(it, "smt "):
 			decl := strings.TrimSpace(it[4:])
 			db.preludeDecls = append(db.preludeDecls, decl)
